@@ -10,6 +10,7 @@ package worldsim
 
 import (
 	"encoding/json"
+	"sync/atomic"
 	"fmt"
 	"runtime/debug"
 	"sort"
@@ -53,7 +54,7 @@ var siteNames = [nSites]string{"step", "tok<", "tok>", "stmt<", "stmt>", "expr<"
 var (
 	hooksActive            bool
 	activeWorld            *World
-	hookPointsOutsideWorld int64
+	hookPointsOutsideWorld atomic.Int64
 )
 
 // Env is what a job sees of the world it runs in. Solo runs and the parallel
@@ -410,6 +411,24 @@ type sink struct {
 	kvs  []KV
 	invs []string
 	full bool
+	// results handed out by Compile are kept and looked at again when the job ends:
+	// a later compilation (same compiler or not) must not change them
+	kept []keptResult
+}
+
+type keptResult struct {
+	key  string
+	res  compiler.CompileResult
+	text string
+}
+
+func renderResult(pan string, res compiler.CompileResult) string {
+	sm := ""
+	if res.SourceMap != nil {
+		b, _ := json.Marshal(res.SourceMap)
+		sm = string(b)
+	}
+	return pan + res.Code + "\n--map--\n" + sm
 }
 
 func (s *sink) put(key, text string) {
@@ -632,6 +651,15 @@ func RunJob(spec *JobSpec, env Env, full bool) *JobResult {
 		}
 		res.KVs = append(res.KVs, s.kvs...)
 		res.Invariants = append(res.Invariants, s.invs...)
+		for _, k := range s.kept {
+			pan := ""
+			if i := strings.Index(k.text, k.res.Code+"\n--map--\n"); i > 0 {
+				pan = k.text[:i]
+			}
+			if now := renderResult(pan, k.res); now != k.text {
+				res.Invariants = append(res.Invariants, "earlier-compile-result-changed-by-a-later-compilation\x00"+k.key+": was "+clipAroundJ(k.text, now)+" is now "+clipAroundJ(now, k.text))
+			}
+		}
 	}
 	sort.SliceStable(res.KVs, func(a, b int) bool { return res.KVs[a].Key < res.KVs[b].Key })
 	// repeated compilation of the same (tree, configuration) — by any task, any compiler, any order — must agree
@@ -898,12 +926,9 @@ func (j *jobRun) compile(s *sink, key string, prog *ast.Program, cfg xutil.Compi
 	j.env.Note(evCompileBegin, prog)
 	pan := guard(func() { res = cc.Compile(prog) })
 	j.env.Note(evCompileEnd, prog)
-	sm := ""
-	if res.SourceMap != nil {
-		b, _ := json.Marshal(res.SourceMap)
-		sm = string(b)
-	}
-	s.put(key, pan+res.Code+"\n--map--\n"+sm)
+	text := renderResult(pan, res)
+	s.put(key, text)
+	s.kept = append(s.kept, keptResult{key, res, text})
 	if after := xutil.Dump(prog); after != before {
 		s.inv("compile-modified-tree", key)
 	}
